@@ -165,3 +165,27 @@ class FlatIndex:
         for j in range(1, len(args)):
             r = r * to_z3(self.dims[j]) + to_z3(args[j])
         return r
+
+
+def explore_paths(U, body, max_paths=256):
+    """run ``body(interp)`` along every feasible path (fresh interpreter per path); returns PathResults
+    whose ``.it`` is the path's interpreter.  Obligations recorded on the paths are absorbed by U."""
+    from ..ctx import Explorer
+    from ..interp import Interp
+
+    its = {}
+
+    def run(ctx):
+        it = Interp(ctx)
+        U.interps.append(it)
+        its[id(ctx)] = it
+        return body(it)
+
+    results = Explorer(max_paths).explore(run)
+    for r in results:
+        r.it = its[id(r.ctx)]
+    return results
+
+
+def prem_of(ctx):
+    return list(ctx.assumptions) + list(ctx.pc)
